@@ -113,29 +113,35 @@ class PlainModel:
         return {'assets': self.assets, 'links': [list(l) for l in self.links]}
 
 
-def ev(lang, pm, e, lo, hi, trace=None):
+def ev(lang, pm, e, lo, hi, trace=None, memo=None):
     """Interval evaluation: returns (lo, hi) sets of asset names reached from the start sets.
 
     For every resolution of the 'does * include the start' ambiguity the true result R satisfies
     lo <= R <= hi.  ``trace`` collects (expr, input, output) for localisation."""
+    if memo is None:
+        memo = {}        # (expression, start asset) -> result of a set operator, for this evaluation only
     k = e['type']
     if k == 'field':
         f = e['name']
         r = (set().union(*[pm.nb(x, f) for x in lo]) if lo else set(),
              set().union(*[pm.nb(x, f) for x in hi]) if hi else set())
     elif k == 'collect':
-        a = ev(lang, pm, e['lhs'], lo, hi, trace)
-        r = ev(lang, pm, e['rhs'], a[0], a[1], trace)
+        a = ev(lang, pm, e['lhs'], lo, hi, trace, memo)
+        r = ev(lang, pm, e['rhs'], a[0], a[1], trace, memo)
     elif k in ('union', 'intersection', 'difference'):
         # MAL evaluates a step expression per asset: the operator is applied to each start asset
         # separately and the results are collected (for union this equals the pooled reading)
         def one(x):
-            a, b = ev(lang, pm, e['lhs'], {x}, {x}, None), ev(lang, pm, e['rhs'], {x}, {x}, None)
-            if k == 'union':
-                return (a[0] | b[0], a[1] | b[1])
-            if k == 'intersection':
-                return (a[0] & b[0], a[1] & b[1])
-            return (a[0] - b[1], a[1] - b[0])
+            key = (id(e), x)
+            if key not in memo:
+                a, b = ev(lang, pm, e['lhs'], {x}, {x}, None, memo), ev(lang, pm, e['rhs'], {x}, {x}, None, memo)
+                if k == 'union':
+                    memo[key] = (a[0] | b[0], a[1] | b[1])
+                elif k == 'intersection':
+                    memo[key] = (a[0] & b[0], a[1] & b[1])
+                else:
+                    memo[key] = (a[0] - b[1], a[1] - b[0])
+            return memo[key]
         rl, rh = set(), set()
         for x in lo:
             rl |= one(x)[0]
@@ -144,10 +150,10 @@ def ev(lang, pm, e, lo, hi, trace=None):
         r = (rl, rh)
         if trace is not None and len(hi) == 1:
             x = next(iter(hi))
-            ev(lang, pm, e['lhs'], {x}, {x}, trace)
-            ev(lang, pm, e['rhs'], {x}, {x}, trace)
+            ev(lang, pm, e['lhs'], {x}, {x}, trace, memo)
+            ev(lang, pm, e['rhs'], {x}, {x}, trace, memo)
     elif k == 'subType':
-        a = ev(lang, pm, e['stepExpression'], lo, hi, trace)
+        a = ev(lang, pm, e['stepExpression'], lo, hi, trace, memo)
         u = e['subType']
         r = ({x for x in a[0] if lang.is_sub(pm.types[x], u)},
              {x for x in a[1] if lang.is_sub(pm.types[x], u)})
@@ -155,7 +161,7 @@ def ev(lang, pm, e, lo, hi, trace=None):
         def one(S, idx):
             out = set()
             for x in S:
-                out |= ev(lang, pm, lang.variable(pm.types[x], e['name']), {x}, {x}, None)[idx]
+                out |= ev(lang, pm, lang.variable(pm.types[x], e['name']), {x}, {x}, None, memo)[idx]
             return out
         r = (one(lo, 0), one(hi, 1))
     elif k == 'transitive':
@@ -164,7 +170,7 @@ def ev(lang, pm, e, lo, hi, trace=None):
         def plus(S, idx):
             seen, frontier = set(), set(S)
             while frontier:
-                nxt = ev(lang, pm, inner, frontier, frontier, None)[idx]
+                nxt = ev(lang, pm, inner, frontier, frontier, None, memo)[idx]
                 frontier = nxt - seen
                 seen |= nxt
             return seen
